@@ -413,6 +413,61 @@ var opTable = []opDef{
 		h.t.ClearPvalues()
 		return "ClearPvalues", nil, true
 	}},
+	{"Decorate", 5, func(h *hist) (string, error, bool) {
+		// direct mutations through the node / branch accessors (what an annotating program does)
+		nodes := h.t.Nodes()
+		edges := h.t.Edges()
+		switch h.r.Intn(6) {
+		case 0:
+			n := nodes[h.r.Intn(len(nodes))]
+			c := gen.Comment(h.r)
+			n.AddComment(c)
+			return fmt.Sprintf("Node.AddComment(%q)", c), nil, true
+		case 1: // rewrite the comments of several nodes: clear, then add
+			k := 0
+			for _, n := range nodes {
+				if len(n.Comments()) > 0 && h.r.Intn(2) == 0 {
+					n.ClearComments()
+					n.AddComment(fmt.Sprintf("rewritten%d", k))
+					k++
+				}
+			}
+			return fmt.Sprintf("Node.ClearComments+AddComment x%d", k), nil, k > 0
+		case 2: // a branch keeps at most one comment and only with a length (C01 domain of the writer)
+			for _, i := range h.r.Perm(len(edges)) {
+				e := edges[i]
+				if e.Length() != tree.NIL_LENGTH && len(e.Comments()) <= 1 {
+					had := len(e.Comments())
+					e.ClearComments()
+					e.AddComment(fmt.Sprintf("edgenote%d", i))
+					return fmt.Sprintf("Edge.ClearComments+AddComment (had %d)", had), nil, true
+				}
+			}
+			return "", nil, false
+		case 3:
+			e := edges[h.r.Intn(len(edges))]
+			l := gen.Float(h.r, "len")
+			e.SetLength(l)
+			return fmt.Sprintf("Edge.SetLength(%v)", l), nil, true
+		case 4:
+			for _, i := range h.r.Perm(len(edges)) {
+				e := edges[i]
+				if !e.Right().Tip() && e.Right().Name() == "" {
+					v := gen.Float(h.r, "unit")
+					e.SetSupport(v)
+					return fmt.Sprintf("Edge.SetSupport(%v)", v), nil, true
+				}
+			}
+			return "", nil, false
+		default:
+			tips := h.t.Tips()
+			n := tips[h.r.Intn(len(tips))]
+			nm := h.freshName()
+			n.SetName(nm)
+			_ = h.t.UpdateTipIndex() // a program that renames a tip refreshes the name index
+			return fmt.Sprintf("Tip.SetName(%s)+UpdateTipIndex", nm), nil, true
+		}
+	}},
 	{"Scale", 2, func(h *hist) (string, error, bool) {
 		if h.r.Intn(2) == 0 {
 			f := gen.Pick(h.r, 0.5, 2.0, 1.0, 10.0)
